@@ -977,3 +977,71 @@ M('W-forward-filtered-handles', ['C18', 'C07'], ['C18.W', 'C07.W'], BUILDER,
         let mut endpoint = UdpProtocol::new(
             handles.into_iter().filter(|&h| h < self.num_players).collect(),""",
   'spectator endpoints get an empty handle list: the Disconnected arm never stops them')
+
+# ---------------------------------------------------------------- round 5
+M('O9-keepalive-not-a-sign-of-life', ['C12', 'C07'], ['C12.O9', 'C07.O1'], PROTO,
+  """        // update time when we last received packages
+        self.last_recv_time = Instant::now();
+""", """        // update time when we last received packages
+        if !matches!(msg.body, MessageBody::KeepAlive) {
+            self.last_recv_time = Instant::now();
+        }
+""", 'keep-alives no longer refresh the liveness timestamp: an idle but healthy peer is reported interrupted')
+M('R-local-history-consumed', ['C09', 'C17'], ['C09.R', 'C17.R'], P2P,
+  """                        if let Some(&local_checksum) =
+                            self.local_checksum_history.get(&remote_frame)""",
+  """                        if let Some(local_checksum) =
+                            self.local_checksum_history.remove(&remote_frame)""", 'the local checksum is consumed by the first remote that reports the frame')
+M('R-pending-output-cleared-on-ack', 'C05', 'C05.R', PROTO,
+  """    fn on_input_ack(&mut self, body: InputAck) {
+        self.pop_pending_output(body.ack_frame);""",
+  """    fn on_input_ack(&mut self, body: InputAck) {
+        if body.ack_frame >= self.last_acked_input.frame {
+            self.pending_output.clear();
+        }
+        self.pop_pending_output(body.ack_frame);""", 'an ack clears the whole resend queue, unacknowledged inputs included')
+N('from-inputs-frame-as-if-expression', ['C06', 'C01', 'C07', 'C17'], PROTO,
+  """                if input.frame != NULL_FRAME {
+                    frame = input.frame;
+                }
+""", """                frame = if input.frame != NULL_FRAME {
+                    input.frame
+                } else {
+                    frame
+                };
+""", 'conditional assignment written as an if-expression')
+N('from-inputs-frame-guard-positive', ['C06', 'C01', 'C07', 'C17'], PROTO,
+  """                if input.frame != NULL_FRAME {
+                    frame = input.frame;
+                }
+""", """                if input.frame >= 0 {
+                    frame = input.frame;
+                }
+""", 'frame != NULL_FRAME written as frame >= 0')
+N('liveness-store-after-resume-check', ['C12', 'C07', 'C08'], PROTO,
+  """        // update time when we last received packages
+        self.last_recv_time = Instant::now();
+
+        // if the connection has been marked as interrupted, send an event to signal we are receiving again
+        if self.disconnect_notify_sent && self.state == ProtocolState::Running {
+            trace!("Received message on interrupted protocol; sending NetworkResumed event");
+            self.disconnect_notify_sent = false;
+            self.event_queue.push_back(Event::NetworkResumed);
+        }
+""", """        // if the connection has been marked as interrupted, send an event to signal we are receiving again
+        if self.disconnect_notify_sent && self.state == ProtocolState::Running {
+            trace!("Received message on interrupted protocol; sending NetworkResumed event");
+            self.disconnect_notify_sent = false;
+            self.event_queue.push_back(Event::NetworkResumed);
+        }
+
+        // update time when we last received packages
+        self.last_recv_time = Instant::now();
+""", 'two independent statements reordered')
+N('event-queue-trim-as-drain', ['C12', 'C18'], P2P,
+  """        while self.event_queue.len() > MAX_EVENT_QUEUE_SIZE {
+            self.event_queue.pop_front();
+        }""", """        if self.event_queue.len() > MAX_EVENT_QUEUE_SIZE {
+            let excess = self.event_queue.len() - MAX_EVENT_QUEUE_SIZE;
+            self.event_queue.drain(..excess);
+        }""", 'cap loop written as one drain')
